@@ -72,8 +72,9 @@ namespace detail
 		template<typename genType>
 		GLM_FUNC_QUALIFIER static genType call(genType Source, genType Multiple)
 		{
+			// fmod(Multiple - remainder, Multiple) is 0 when Source is already a multiple
 			if(Source > genType(0))
-				return Source + (Multiple - std::fmod(Source, Multiple));
+				return Source + std::fmod(Multiple - std::fmod(Source, Multiple), Multiple);
 			else
 				return Source + std::fmod(-Source, Multiple);
 		}
@@ -117,10 +118,11 @@ namespace detail
 		template<typename genType>
 		GLM_FUNC_QUALIFIER static genType call(genType Source, genType Multiple)
 		{
+			// fmod(Multiple + remainder, Multiple) is 0 when Source is already a multiple
 			if(Source >= genType(0))
 				return Source - std::fmod(Source, Multiple);
 			else
-				return Source - std::fmod(Source, Multiple) - Multiple;
+				return Source - std::fmod(Multiple + std::fmod(Source, Multiple), Multiple);
 		}
 	};
 
